@@ -102,4 +102,28 @@ PROPERTIES = {
         "jobs": [J("C11_refine", quick={"cases": 250, "shards": 16, "max_size": 60}, thorough={"cases": 10000, "shards": 16, "max_size": 100}),
                  J("C11_refine", variant="san-dm1", quick={"cases": 100, "shards": 4, "max_size": 60}, thorough={"cases": 3000, "shards": 8, "max_size": 100})],
     },
+    "C16": {
+        "rule": "rapidcheck: populations of 1-8 cells of the five classes, 4-700 triangles, coordinate scales 1e-9..1e6 with offsets up to "
+                "1e4 sizes, exact and negative zeros, type ids 0..12; cells optionally pre-processed by 1-8 real split/collapse operations "
+                "so that they hold unused slots; three writer entry points (write_cell_data_file(cells), write(cell+face files), "
+                "vector<mesh> overload). Non-trivial = >= 2 cell classes AND at least one cell the writer had to compact; distinct = hash of the case.",
+        "min_nontrivial": 100,
+        "assumptions": ["'equal to the written precision' is decided exactly: the value read back must equal strtod of the harness's own %.4e rendering",
+                        "cell types are only round-tripped through mesh_writer::write (the only entry point that writes the type array)"],
+        "jobs": [J("C16_roundtrip", quick={"cases": 150, "shards": 16, "max_size": 60}, thorough={"cases": 5000, "shards": 16, "max_size": 100},
+                   env={"VERIF_TMP": "/verif/build/run"})],
+    },
+    "C18": {
+        "rule": "rapidcheck: parameter files with 1-5 cell types x 1-4 face types, all ~30 tags with pairwise distinct values over 24 decades, "
+                "six notations (%.17g, %e, %g, %.3E, leading +, fixed), INF/inf/Inf where documented, shuffled tag order, comments and "
+                "padding; 5/13 of the cases are read back field by field, the others carry one mutation (omitted tag, negated or "
+                "out-of-order value, boundary value 0 / S == dt) that must be rejected or accepted as the reader announces. Non-trivial = "
+                "read-back with >= 2 cell types and an INF, or any mutation case; distinct = hash of the case.",
+        "min_nontrivial": 200,
+        "assumptions": ["sign constraints are those announced by the reader's messages (the docs state none); damping = 0 is not judged "
+                        "because message ('strictly positive') and code (rejects only negatives) disagree",
+                        "the 'values govern the run' clause is decided by the solver-level engines that feed their parameters through XML (C19 sub xml)"],
+        "jobs": [J("C18_params", quick={"cases": 600, "shards": 8, "max_size": 60}, thorough={"cases": 30000, "shards": 16, "max_size": 100},
+                   env={"VERIF_TMP": "/verif/build/run"})],
+    },
 }
